@@ -464,3 +464,62 @@ def operand_param_tables():
         "required_capabilities": required_table("required_capabilities"),
         "required_extensions": required_table("required_extensions"),
     }
+
+
+# ------------------------------------------------------------------ Builder method signatures (C06, C12, C13)
+BUILDER_FILES = ["rspirv/dr/build/mod.rs", "rspirv/dr/build/autogen_type.rs", "rspirv/dr/build/autogen_constant.rs",
+                 "rspirv/dr/build/autogen_annotation.rs", "rspirv/dr/build/autogen_terminator.rs", "rspirv/dr/build/autogen_debug.rs",
+                 "rspirv/dr/build/autogen_norm_insts.rs"]
+
+
+def builder_signatures():
+    """[dict(name, file, params=[(name, type text)], ret, opcodes=[names of spirv::Op::X in the body], sinks=[...], line)]
+    for every `pub fn` with a `self` receiver inside `impl Builder` blocks."""
+    out = []
+    for rel in BUILDER_FILES:
+        s = src(rel)
+        t = s.toks
+        n = len(t)
+        i = 0
+        while i < n - 2:
+            if t[i].v == "impl" and t[i + 1].v == "Builder" and t[i + 2].v == "{":
+                end = match_close(t, i + 2)
+                j = i + 3
+                while j < end:
+                    if t[j].v == "fn" and t[j + 1].k == "id":
+                        pub = t[j - 1].v == "pub"
+                        name = t[j + 1].v
+                        po = j + 2
+                        while t[po].v != "(":
+                            po += 1
+                        pc = match_close(t, po)
+                        params = []
+                        has_self = False
+                        for p in split_commas(t[po + 1:pc]):
+                            pv = [x.v for x in p]
+                            if "self" in pv[:3]:
+                                has_self = True
+                                continue
+                            ci = pv.index(":")
+                            params.append((pv[0], " ".join(pv[ci + 1:])))
+                        bo = pc + 1
+                        while t[bo].v != "{":
+                            bo += 1
+                        ret = " ".join(x.v for x in t[pc + 1:bo]).replace("-> ", "", 1).strip()
+                        bc = match_close(t, bo)
+                        bv = [x.v for x in t[bo:bc]]
+                        opcodes = [bv[x + 4] for x in range(len(bv) - 4) if bv[x:x + 4] == ["spirv", "::", "Op", "::"]]
+                        sinks = []
+                        for x in range(len(bv) - 3):
+                            if bv[x] == "self" and bv[x + 1] == ".":
+                                if bv[x + 2] in ("end_block", "insert_end_block", "insert_into_block", "insert_types_global_values"):
+                                    sinks.append(bv[x + 2])
+                                elif bv[x + 2] == "module" and bv[x + 3] == ".":
+                                    sinks.append("module." + bv[x + 4])
+                        if has_self:
+                            out.append(dict(name=name, file=rel, params=params, ret=ret, opcodes=opcodes, sinks=sinks, line=t[j].line, pub=pub))
+                        j = bc
+                    j += 1
+                i = end
+            i += 1
+    return out
